@@ -64,7 +64,9 @@ def base_cells(tier):
     cs += [[5.0, 5.0, 7.0, 90.0, 90.0, 119.999996], [5.0, 5.0, 7.0, 90.0, 90.0, 60.000004], [6.0, 6.0, 6.0, 90.0, 119.999997, 90.0],
            [4.0, 5.0, 7.3, 90.0, 90.0, math.degrees(math.acos(0.4)) + 4e-6]]
     if tier == "thorough":
-        cs += alph.cells("quick", lens=[(3, 4, 5), (5.1, 6.3, 7.7)], angs=[60, 75, 90, 105, 120])
+        # (the shared alphabet's special cells with axis ratios beyond 20 - a 400 A axis next to 3 A - are left to C01: the volume recomputed
+        # from six printed parameters of such a cell is only good to ~1e-8, which says nothing about the reduction)
+        cs += [c for c in alph.cells("quick", lens=[(3, 4, 5), (5.1, 6.3, 7.7)], angs=[60, 75, 90, 105, 120]) if max(c[:3]) <= 20 * min(c[:3])]
     out = []
     for c in cs:
         if is_reduced(c) and c not in out:
@@ -224,7 +226,8 @@ def check_case(case):
     if all(abs(x - round(x)) < 1e-12 for x in cell0):
         ic = [int(round(x)) for x in cell0]
         base = [float(x) for x in mod.reduce_cell(np.array(ic, float))]
-        for kn, arg in (("int64 array", np.array(ic, dtype=np.int64)), ("list of ints", list(ic)), ("tuple of ints", tuple(ic)), ("float32 array", np.array(ic, dtype=np.float32))):
+        # (no float32 here: at a tie - |a+b| = |a| in a hexagonal cell - single-precision cosines legitimately settle on another description)
+        for kn, arg in (("int64 array", np.array(ic, dtype=np.int64)), ("list of ints", list(ic)), ("tuple of ints", tuple(ic))):
             try:
                 out = [float(x) for x in mod.reduce_cell(arg)]
                 # a float32 argument is processed in single precision (cos(90 deg) = -4e-8): 1e-4 is the honest bound there
